@@ -46,7 +46,7 @@ def run(ctx):
         if r[0] == "ok":
             data.append(r[1])
     pool = scopes.SETS["core"][:-1] + ['[=O]', '[Branch2]', '[Ring2]', '[#Branch3]', '[P]', '[S]', '[epsilon]']
-    nbase = 500 if quick else 6000
+    nbase = 500 if quick else 25000
     for i in range(nbase):
         if i % 30 == 0:
             t = rng.choice(["default", "hypervalent", "octet_rule", tablegen.random_table(rng)])
